@@ -1360,7 +1360,7 @@ struct reinterpret_as_rhs_impl<
 
     template <class V>
     static return_type get(V &&x) {
-        auto ptr = reinterpret_cast<ptr_type>(&x[0]);
+        auto ptr = reinterpret_cast<ptr_type>(x.size() ? &x[0] : nullptr);
         const size_t n = x.size() * sizeof(src_type) / sizeof(dst_type);
         return make_iterator_range(ptr, ptr + n);
     }
